@@ -9,6 +9,7 @@ PROPS = {}
 PROPS["C05"] = {
     "lean_module": "RaftVerif.Props.C05",
     "theorems": [
+        T("SV.ae_commit_rule", "the stepped model's AppendEntries, every image / state / request: after a successful answer the commit index is the old one, or strictly larger and equal to min(LeaderCommitIndex, last index this request covers) - never over entries the request did not vouch for (the F8 repair), never backwards"),
         T("C05.commit_is_majority", "every commitment step: monotone; a change needs a strict voter majority at the new index, >= startIndex, and is maximal"),
         T("C05.commit_monotone", "commit index monotone over every operation sequence"),
         T("C05.model_meets_spec", "the executable Spec evaluated on the implementation is met by the model"),
@@ -87,6 +88,7 @@ PROPS["C01"] = {
 PROPS["C02"] = {
     "lean_module": "RaftVerif.Props.C02",
     "theorems": [
+        T("SV.ae_commit_rule", "the stepped model's AppendEntries, every image / state / request: after a successful answer the commit index is the old one, or strictly larger and equal to min(LeaderCommitIndex, last index this request covers) - never over entries the request did not vouch for (the F8 repair), never backwards"),
         T("RP.state_machine_safety", "cluster model: any two servers agree on every index up to both commit indexes", "partial"),
         T("RP.state_machine_safety_snap", "the same up to max(commit, snapshot index), with snapshots, compaction and InstallSnapshot", "partial"),
         T("RP.fsm_safety", "over ghost records of every entry ever handed to any FSM and every state ever restored, in every lifetime: equal index => equal entry; restored states are the agreed prefix", "partial"),
@@ -157,6 +159,8 @@ PROPS["C10"] = {
 PROPS["C11"] = {
     "lean_module": "RaftVerif.Props.C11",
     "theorems": [
+        T("SV.snap_writes", "takeSnapshot in the stepped model, every server state: at most a snapshot and one log deletion; the snapshot ends at the FSM goroutine's position, carries the committed configuration (its entry at or below that position) and the FSM content; the deletion starts at the store's first index, ends at or below the snapshot and leaves at least TrailingLogs entries"),
+        T("SV.snap_position_monotone", "a local snapshot never moves the cached snapshot position back (the F9 repair)"),
         T("CP.compactRange_spec", "compaction deletes from the first index, never above the snapshot, keeps TrailingLogs entries"),
         T("CP.compactRange_maximal", "and deletes everything those bounds allow"),
         T("CP.removeOldLogs_all", "removeOldLogs removes the whole store"),
@@ -165,7 +169,7 @@ PROPS["C11"] = {
     ],
     "engines": [{"engine": "compaction", "bin": "h1", "quick": ["-n", "20000"], "thorough": ["-n", "400000"]}, universe("C11")],
     "assumptions": [SV_NOTE],
-    "level_note": "partial: takeSnapshot on the snapshot goroutine (F9 window) is not yet in the stepped model.",
+    "level_note": "partial: takeSnapshot is in the stepped model as an atomic step of the snapshot goroutine (event K); its interleaving with the main loop (the F9 window) is exercised by the cluster engine only.",
 }
 
 PROPS["C14"] = {
